@@ -3,9 +3,16 @@
  igzip/igzip_icf_body.c, and the table/dictionary/mask functions of igzip/igzip.c)."""
 from runner import H
 
-HUFFMAN_H = ['igzip/huffman.h']
+HUFFMAN_H = ['igzip/huffman.h', 'include/unaligned.h']
+UA = ['include/unaligned.h']
 
 HARNESSES = []
+
+# ---- include/unaligned.h loads/stores: byte-wise contracts proved against the memcpy bodies ---------
+for fn in ('load_le_u64', 'load_le_u32', 'load_native_u64', 'load_native_u32', 'store_le_u64', 'store_native_u32',
+           'store_le_u32'):
+    HARNESSES.append(H(fn, ['C01'], 'igzip/huff_ua.c', UA, enforce=fn, also=['C05', 'C15', 'C17'], timeout=300,
+                       expect=['postcondition']))
 
 # ---- A. igzip/huffman.h ---------------------------------------------------------------------------
 A = 'igzip/huff_a.c'
@@ -29,15 +36,35 @@ HARNESSES += [
     H('get_len_code', ['C01'], A, HUFFMAN_H, enforce='get_len_code', also=['C05', 'C15', 'C18'],
       timeout=300, expect=['postcondition']),
     H('compare258', ['C01'], A, HUFFMAN_H, enforce='compare258', also=['C05', 'C15', 'C17'], timeout=600,
+      replace=['load_le_u64'], object_bits=8,
       expect=['postcondition', 'loop_invariant_step', 'loop_decreases'], replay=('huff.c', 'compare258')),
     H('compare', ['C01'], A, HUFFMAN_H, enforce='compare', also=['C05', 'C15'], timeout=600,
+      replace=['load_le_u64'], object_bits=8,
       expect=['postcondition', 'loop_invariant_step', 'loop_decreases'], replay=('huff.c', 'compare')),
     H('compare258_overlap', ['C01'], A, HUFFMAN_H, enforce='compare258', also=['C05', 'C17'], timeout=600,
-      defines=['CMP_MEM_OVERLAP'], expect=['postcondition', 'loop_invariant_step'],
+      defines=['CMP_MEM_OVERLAP'], replace=['load_le_u64'], object_bits=8, expect=['postcondition', 'loop_invariant_step'],
       replay=('huff.c', 'compare258'),
       note='both pointers into one object (str1 = str2 - dist), the shape of the real call sites'),
     H('rfc_tables_consistent', ['C17', 'C18', 'C01'], A, HUFFMAN_H, timeout=300, expect=['assertion'],
       min_obligations=8, note='lemma over contracts/spec_deflate_rfc.h only (typo guard for the typed-in tables)'),
+]
+
+# ---- B. igzip/huff_codes.c ------------------------------------------------------------------------
+B = 'igzip/huff_b.c'
+HC = ['igzip/huff_codes.c', 'igzip/huffman.h', 'include/unaligned.h']
+HARNESSES += [
+    H('convert_dist_to_dist_sym', ['C18', 'C17'], B, HC, enforce='convert_dist_to_dist_sym', also=['C01', 'C05', 'C15'],
+      timeout=300, expect=['postcondition'], replay=('huff.c', 'convert_dist_to_dist_sym')),
+    H('convert_length_to_len_sym', ['C18'], B, HC, enforce='convert_length_to_len_sym', also=['C01', 'C05', 'C15'],
+      timeout=300, expect=['postcondition'], replay=('huff.c', 'convert_length_to_len_sym')),
+    H('are_hufftables_useable', ['C18'], B, HC, enforce='are_hufftables_useable', also=['C05', 'C15'],
+      timeout=600, expect=['postcondition', 'loop_invariant_step', 'loop_decreases'],
+      replay=('huff.c', 'are_hufftables_useable')),
+    H('write_rl', ['C18'], B, HC, enforce='write_rl', also=['C05', 'C15'], timeout=600,
+      expect=['postcondition', 'loop_invariant_step', 'loop_decreases'], replay=('huff.c', 'write_rl')),
+    H('spec_rl_valid', ['C18'], B, HC, timeout=300, expect=['assertion'], min_obligations=6,
+      note='lemma: the closed-form greedy run-length coding used as write_rl postcondition is RFC 1951 3.2.7-valid '
+           'and expands to exactly run copies of v (prefix-sum witness at an arbitrary position)'),
 ]
 
 PROP_TEXT = {}
